@@ -39,7 +39,7 @@ func (fc *FnCtx) calleeKeys(c *ssa.CallCommon, fnv Val) (keys []string, callee *
 		// heap.Push[*watermark.lowHeap]
 		if len(c.Args) > 0 {
 			if mi, ok := c.Args[0].(*ssa.MakeInterface); ok {
-				keys = append(keys, n+"["+fc.eng.typeName(mi.X.Type())+"]")
+				keys = append(keys, "@"+n+"["+fc.eng.typeName(mi.X.Type())+"]")
 			}
 		}
 		keys = append(keys, n)
@@ -52,7 +52,7 @@ func (fc *FnCtx) calleeKeys(c *ssa.CallCommon, fnv Val) (keys []string, callee *
 
 func (fc *FnCtx) findContract(keys []string) *Contract {
 	for _, k := range keys {
-		if c, ok := fc.eng.contracts[k]; ok {
+		if c, ok := fc.eng.contracts[strings.TrimPrefix(k, "@")]; ok {
 			return c
 		}
 	}
@@ -102,6 +102,9 @@ func (fc *FnCtx) callAnchor(c *ssa.CallCommon, fnv Val) string {
 				name = bi.Name()
 			} else {
 				ks, _ := fc.calleeKeys(cc, Val{})
+				for len(ks) > 0 && strings.HasPrefix(ks[0], "@") {
+					ks = ks[1:] // specialised contract keys do not name the call site
+				}
 				if len(ks) > 0 {
 					name = ks[0]
 				} else {
@@ -378,7 +381,7 @@ func (fc *FnCtx) execCallWith1(fr *frame, st *State, c *ssa.CallCommon, fnv Val,
 	// no contract: havoc everything the callee could touch
 	name := "<dynamic>"
 	if len(keys) > 0 {
-		name = keys[0]
+		name = strings.TrimPrefix(keys[0], "@")
 	}
 	fc.uncontracted(name)
 	if callee != nil {
@@ -524,10 +527,10 @@ func (fc *FnCtx) execAppend(st *State, s, e Val, rty types.Type, pos token.Pos) 
 	h := fc.heapGet(st, k)
 	at := fc.atFn(et)
 	// the operands occur inside patterns below: they must be constants, not macros with ite/and
-	if strings.Contains(s.T, "!") || strings.Contains(s.T, "(") {
+	if strings.HasPrefix(s.T, "mv!") {
 		s.T = fc.sc.DefineConst("aps", "Slice", s.T)
 	}
-	if e.Sort != sortStr && (strings.Contains(e.T, "!") || strings.Contains(e.T, "(")) {
+	if e.Sort != sortStr && strings.HasPrefix(e.T, "mv!") {
 		e.T = fc.sc.DefineConst("ape", "Slice", e.T)
 	}
 	var eLen, eArr, eOff string
